@@ -199,6 +199,8 @@ class map_impl {
   void clear() {
     m_comm.barrier();
     m_local_map.clear();
+    // No rank may return (and insert again) before every rank has cleared
+    m_comm.cf_barrier();
   }
 
   size_type size() {
@@ -217,6 +219,8 @@ class map_impl {
     m_comm.barrier();
     std::swap(m_default_value, s.m_default_value);
     m_local_map.swap(s.m_local_map);
+    // No rank may return (and insert again) before every rank has swapped
+    m_comm.cf_barrier();
   }
 
   template <typename STLKeyContainer, typename MapKeyValue>
